@@ -113,6 +113,19 @@ fn pos_values(c: &Ctx, l: Lay, rng: &mut Rng, n: usize) -> Vec<u128> {
     let _ = c;
     v
 }
+// a hair above a power of two: relative offsets 2^-24 .. 2^-40 (below the resolution of the I9F23 constants);
+// appended after pick() so that sampling never drops them
+fn hair_values(l: Lay) -> Vec<u128> {
+    let top = if l.s { l.w - 1 } else { l.w };
+    let mut v = Vec::new();
+    for k in (0..top).filter(|k| k % 3 == 0) {
+        let p = 1u128 << k;
+        for sh in [24u32, 25, 26, 30, 40] {
+            if k >= sh { v.push(p + (p >> sh)); v.push(p + (p >> sh) + (p >> (sh + 2).min(k))); }
+        }
+    }
+    v
+}
 fn neg_of(l: Lay, p: u128) -> u128 { p.wrapping_neg() & mask(l.w) }
 
 fn pick<T: Clone>(v: Vec<T>, k: usize, seed: u64) -> Vec<T> {
@@ -223,6 +236,7 @@ where
         let mut xs = pick(pos_values(c, ls, &mut rng, c.k(60, 600)), c.k(220, 4000), seed);
         // every exact power of two
         for k in 0..ls.w - 1 { xs.push(1u128 << k); }
+        xs.extend(hair_values(ls));
         xs.push(0);
         xs.push(neg_of(ls, 1));
         xs.push(1u128 << (ls.w - 1));
@@ -277,6 +291,13 @@ where
             let lnb = b.ln().abs().max(0.01);
             let e = ((rng.below(2001) as f64 - 1000.0) / 1000.0) * (imax / lnb).min(200.0);
             pairs.push((fx(b) | (rng.next() as u128 & mask(ls.f.min(16))), fx(e)));
+        }
+        // whole-number exponents far above the work bound, with bases at or near 1 (a pow that loops |y| times shows here)
+        let emax = ((1u128 << (ls.w - ls.f - 1).min(40)) - 1) as f64;
+        for &b in &[0.999, 0.99, 1.0001, 0.5, 1.0 - 2f64.powi(-(ls.f.min(40) as i32)), 1.0 + 2f64.powi(-(ls.f.min(40) as i32)), 1.5] {
+            for &e in &[255.0, 1000.0, 100000.0, 1048576.0, emax, emax - 1.0, -255.0, -100000.0] {
+                if e.abs() <= emax { pairs.push((fx(b), fx(e))); }
+            }
         }
         for (x, y) in pairs {
             let (a, b) = (S::from_raw(x & mask(ls.w)), S::from_raw(y & mask(ls.w)));
